@@ -273,10 +273,12 @@ func runC19(p *Prog, r *Report) {
 		{"config/parse.CommentToString", "comments/lines", ""},
 		{"config/parse.SettingLines", "lines", ""},
 		{"comments.ParseDocs", "files of a package", "ast.File"},
+		{"comments.parseInterfaceMethods", "methods of the converter interface", "ast.Field"},
 	})
 	sharedMapAliasRule(p, r, "C19.R8")
 	localConfigFunctionsOnlyRule(p, r, "C19.R9")
 	noScannerRule(p, r, "C19.R10")
+	localConfigNameRule(p, r, "C19.R11")
 }
 
 // docOrigin: e is parse.CommentToString(X.Doc) (possibly via a local variable or a
@@ -528,8 +530,10 @@ func c19R4(p *Prog, r *Report) {
 }
 
 // c19R5: the prefix predicate is applied to the trimmed line.
-func c19R5(p *Prog, r *Report) {
-	r.Rule("C19.R5", "in parse.SettingLines every test for the `goverter:` prefix (HasPrefix / CutPrefix / TrimPrefix with the constant \"goverter:\") takes strings.TrimSpace(<line>) as its subject, and the stored setting is that trimmed line without the prefix", 1)
+func c19R5(p *Prog, r *Report) { settingLinesTrimRule(p, r, "C19.R5") }
+
+func settingLinesTrimRule(p *Prog, r *Report, id string) {
+	r.Rule(id, "in parse.SettingLines every test for the `goverter:` prefix (HasPrefix / CutPrefix / TrimPrefix with the constant \"goverter:\") takes strings.TrimSpace(<line>) as its subject, and the stored setting is that trimmed line without the prefix", 1)
 	fi, sf := needFunc(p, r, "config/parse.SettingLines")
 	if fi == nil {
 		return
